@@ -281,6 +281,44 @@ theorem cert_binds_fields (sgn : Key → Key → Nat → Nat → Sig)
     obtain ⟨a1, a2, a3, a4⟩ := hinj _ _ _ _ _ _ _ _ e2
     exact hne ⟨a1.symm, a2.symm, a3.symm, a4.symm⟩
 
+/-! ### the KES-period observation, stated on the model
+
+(See the decision in props/C46.json: a CIP-0137 conformance deviation, not a violation of the
+property as stated.) -/
+
+/-- The KES step never looks at the certificate's own KES period: two messages that differ only
+    in `OperationalCertificate.KESPeriod` get the same KES verdict. -/
+theorem kes_step_ignores_opcert_period (a : Auth Payload Key KSig Pool)
+    (m : Msg Payload Digest Key Sig KSig) (p' : Nat) (slot : Option Nat) :
+    kesOk P a { m with ocPeriod := p' } slot = kesOk P a m slot := rfl
+
+/-- Without a caller-supplied slot the verifier is handed `kesPeriod · slotsPerKesPeriod`, i.e. (when
+    the product does not wrap) it is asked about evolution `slot / spk − kesPeriod = 0`, whatever
+    evolution the message was signed at. -/
+theorem no_slot_checks_evolution_zero (a : Auth Payload Key KSig Pool)
+    (m : Msg Payload Digest Key Sig KSig) (hspk : 0 < a.slotsPerKesPeriod)
+    (hw : P.kesPeriodOf m.payload * a.slotsPerKesPeriod < 2 ^ 64) :
+    slotFor P a m none / a.slotsPerKesPeriod - P.kesPeriodOf m.payload = 0 := by
+  unfold slotFor
+  simp only
+  rw [Nat.mod_eq_of_lt hw, Nat.mul_div_cancel _ hspk]
+  omega
+
+/-- When the product wraps, the period the verifier derives is strictly smaller than the payload's
+    KES period — the real verifier then answers "certificate in the future": a wrap can only turn
+    an acceptance into a rejection. -/
+theorem wrap_only_lowers_period (a : Auth Payload Key KSig Pool)
+    (m : Msg Payload Digest Key Sig KSig) (hspk : 1 < a.slotsPerKesPeriod)
+    (hw : P.kesPeriodOf m.payload * a.slotsPerKesPeriod ≥ 2 ^ 64) :
+    slotFor P a m none / a.slotsPerKesPeriod < P.kesPeriodOf m.payload := by
+  unfold slotFor
+  simp only
+  have hlt : P.kesPeriodOf m.payload * a.slotsPerKesPeriod % 2 ^ 64 <
+      P.kesPeriodOf m.payload * a.slotsPerKesPeriod := by
+    have := Nat.mod_lt (P.kesPeriodOf m.payload * a.slotsPerKesPeriod) (by decide : 0 < 2 ^ 64)
+    omega
+  exact (Nat.div_lt_iff_lt_mul (by omega)).mpr hlt
+
 /-! ### regenerated source facts
 
 The order of the five steps, the byte lengths they compare against, the rotation comparison and
